@@ -345,12 +345,13 @@ def clause_commit_order(R, F):
         return
     hb = hs[0].bb
     for (field, ttype, _) in tf:
-        if not ttype.endswith("BlockCachedDatabase"):
+        if field == src:
             continue
         for c in commits.get(field, []):
             R.ob(fn.dominates(hb, c.bb) and hb != c.bb, "DOM-order", c.where(), "DOM-order|commit_changes|%s<%s" % (src, field),
-                 "commit of state table %s is not dominated by the commit of the height table %s: a crash in between "
-                 "reopens below the stamp of persisted state" % (field, src),
+                 "commit of table %s is not dominated by the commit of the table the height is read from after a reopen (%s): a crash in "
+                 "between reopens at a height below rows that are already persisted, and a reorg to that height is a no-op that leaves "
+                 "them behind" % (field, src),
                  sample={"rule": "DOM-order", "first": src, "then": field})
     for f2, cs in flush.items():
         for c in cs:
